@@ -22,7 +22,7 @@ def _fit_view(repo):
   denominator (delta: bound to a constant); grad_w = the increment of the
   running average; dist_diff = result of _compute_dist_diff; rand_int / idx
   = the batch index table and its row; slack_val / slack_mask."""
-  f0 = repo.get_func('scml._BaseSCML._fit')
+  f0 = astutil.inline_helpers(repo, repo.get_func('scml._BaseSCML._fit'))
   roles = {}
   names = lambda e: [x.id for x in ast.walk(e) if isinstance(x, ast.Name)]
   fin = [n for n in ast.walk(f0.node) if isinstance(n, ast.Assign) and
@@ -483,21 +483,38 @@ def rule_update_formulas(repo, rep):
     else:
       rep.unknown(R, key, site(f, stm['w']), 'w = %s is not of the form '
                   'scale_f * minimum(<rational>, 0)' % ast.unparse(e))
-  for name, want_txt in (
-          ('grad_w', ('np.sum(dist_diff[idx[slack_mask], :], axis=0, '
-                      'keepdims=True) / self.batch_size',)),
-          ('slack_val', ('1 + np.matmul(dist_diff[idx, :], w.T)',
-                         '1 + dist_diff[idx, :].dot(w.T)',
-                         'np.matmul(dist_diff[idx, :], w.T) + 1')),
-          ('slack_mask', ('np.squeeze(slack_val > 0, axis=1)',))):
-    if name in stm:
-      got = ast.unparse(stm[name].value)
-      if got in want_txt:
-        rep.derived(R, 'scml._BaseSCML._fit:' + name, site(f, stm[name]))
-      else:
-        rep.unknown(R, 'scml._BaseSCML._fit:' + name, site(f, stm[name]),
-                    '%s = %s is not in the table of recognised forms'
-                    % (name, got))
+  # mini-batch sub-gradient: the rows of the batch whose margin is violated,
+  # summed and divided by the batch size - compared after unfolding every
+  # temporary of the loop body (so it does not matter which ones exist)
+  if 'grad_w' in stm:
+    body_ = loops[0].body
+    gexp = astutil.unfold(stm['grad_w'].value, body_, stm['grad_w'],
+                          stop=('w', 'dist_diff', 'idx', 'avg_grad_w',
+                                'ada_grad_w'))
+    got = ast.unparse(gexp)
+    margins = ('1 + np.matmul(dist_diff[idx, :], w.T)',
+               '1 + dist_diff[idx, :].dot(w.T)',
+               'np.matmul(dist_diff[idx, :], w.T) + 1',
+               '1 + np.matmul(dist_diff[idx], w.T)',
+               '1 + dist_diff[idx] @ w.T', '1 + dist_diff[idx, :] @ w.T')
+    masks = ['np.squeeze(%s > 0, axis=1)' % m for m in margins] + \
+        ['(%s > 0).ravel()' % m for m in margins] + \
+        ['(%s > 0)[:, 0]' % m for m in margins]
+    wants = []
+    for m in masks:
+      wants += ['np.sum(dist_diff[idx[%s], :], axis=0, keepdims=True) / '
+                'self.batch_size' % m,
+                'np.sum(dist_diff[idx[%s]], axis=0, keepdims=True) / '
+                'self.batch_size' % m,
+                'np.sum(dist_diff[idx, :][%s], axis=0, keepdims=True) / '
+                'self.batch_size' % m,
+                'np.sum(dist_diff[idx][%s], axis=0, keepdims=True) / '
+                'self.batch_size' % m]
+    if got in wants:
+      rep.derived(R, 'scml._BaseSCML._fit:grad_w', site(f, stm['grad_w']))
+    else:
+      rep.unknown(R, 'scml._BaseSCML._fit:grad_w', site(f, stm['grad_w']),
+                  'grad_w = %s is not in the table of recognised forms' % got)
   # the scheme runs its max_iter iterations: the best checkpoint is chosen
   # among all of them
   Re = 'R-GUARD:scml-no-early-exit'
